@@ -41,7 +41,8 @@ def applicable(tag):
 
 
 CTOR_NOINLINE = [r"^component::parser::(frame_header|frame|subframe|constant|verbatim|fixed_lpc|lpc|quantized_parameters"
-                 r"|residual|raw_samples|block_size_code|sample_rate_code)$"]
+                 r"|residual|raw_samples|block_size_code|sample_rate_code)$",
+                 r"ChannelAssignment::(bits_per_sample_offset|channels)$", r"FrameHeader::(block_size|bits_per_sample)$"]
 
 
 def reader_events(facts, body, noinline=CTOR_NOINLINE, log=None, args=None):
